@@ -1,0 +1,28 @@
+//go:build verif
+
+// Machine-checked contracts for package imagemeta (comment-only; read by /verif/bin/vcgo).
+package imagemeta
+
+// readerPool only ever holds *bufio.Reader values (pool New and every Put site are checked).
+//@ pool readerPool *bufio.Reader
+
+// Entry points: the only precondition is a non-nil reader (what the API documents).
+//@ func DecodeTiff
+//@   props C01 C02
+//@   entry
+//@   requires r != nil
+
+//@ func DecodeCR2
+//@   props C01 C02
+//@   entry
+//@   requires r != nil
+
+//@ func DecodeHeif
+//@   props C01 C02
+//@   entry
+//@   requires r != nil
+
+//@ func DecodePng
+//@   props C01 C02
+//@   entry
+//@   requires r != nil
